@@ -154,7 +154,7 @@ class Run:
         known_seen = {}
         new_viol = 0
         for sig, vs in by_sig.items():
-            v = vs[0]
+            v = min(vs, key=lambda x: len(json.dumps(jsonable(x['case']))))
             # every verdict is re-established from scratch, twice, without the explorer
             try:
                 r1 = self.mod.replay(unjson(jsonable(v['case'])))
@@ -204,7 +204,7 @@ class Run:
         return exit_code
 
     def write_replay(self, sig, v, what, ncases):
-        d = os.path.join(ROOT, 'replays', self.pid)
+        d = os.path.join(os.environ.get('VERIF_REPLAY_DIR') or os.path.join(ROOT, 'replays'), self.pid)
         os.makedirs(d, exist_ok=True)
         name = hashlib.sha1(sig.encode()).hexdigest()[:12] + '.json'
         path = os.path.join(d, name)
@@ -218,7 +218,7 @@ class Run:
     def write_evidence(self, wall, new_viol, known_seen):
         res = self.res
         mod = self.mod
-        d = os.path.join(ROOT, 'evidence')
+        d = os.environ.get('VERIF_EVIDENCE_DIR') or os.path.join(ROOT, 'evidence')
         os.makedirs(d, exist_ok=True)
         cov = {
             'states': res['states'],
